@@ -3,8 +3,10 @@ package main
 import (
 	"encoding/json"
 	"fmt"
+	"hash/fnv"
 	"net/url"
 	"strings"
+	"sync"
 	"time"
 
 	"verifharness/pkg/jws"
@@ -73,6 +75,39 @@ func mkPool(rr *h.Rand, o *gen.Oracle) hubPool {
 	return p
 }
 
+var (
+	collOnce     sync.Once
+	collA, collB string
+)
+
+// collidingTemplates: a claim-like template and a catch-all template with FNV-32a("t_"+a) == FNV-32a("t_"+b)
+// (birthday search, once per process).
+func collidingTemplates() (string, string) {
+	collOnce.Do(func() {
+		h32 := func(s string) uint32 {
+			f := fnv.New32a()
+			f.Write([]byte(s))
+
+			return f.Sum32()
+		}
+		seen := map[uint32]int{}
+		for i := 0; i < 1<<17; i++ {
+			seen[h32(fmt.Sprintf("t_https://example.com/users/%d/{resource}", i))] = i
+		}
+		for j := 0; j < 1<<20; j++ {
+			b := fmt.Sprintf("{+v%d}", j)
+			if i, ok := seen[h32("t_"+b)]; ok {
+				collA, collB = fmt.Sprintf("https://example.com/users/%d/{resource}", i), b
+
+				return
+			}
+		}
+		collA, collB = "https://example.com/users/1/{resource}", "{+v}"
+	})
+
+	return collA, collB
+}
+
 func claimsJSON(key string, sels []string, payload string) string {
 	m := map[string]interface{}{key: sels}
 	if sels == nil {
@@ -106,6 +141,15 @@ func genHubCase(rr *h.Rand, o *gen.Oracle, focus string) hubCase {
 	next := 0
 	var live []int
 	var ids []string
+	if focus == "" && rr.Chance(1, 6) {
+		// two template selectors whose compiled-template cache keys collide under the cache's 32-bit shard hash:
+		// the subscriber is authorised for one user's resources and subscribes to a catch-all template; a private
+		// update about another user must not reach it, whatever the selector cache holds
+		a, b := collidingTemplates()
+		cs.Ops = append(cs.Ops, hubOp{Op: "sub", Label: 2000, Topics: []string{b}, Claims: claimsJSON("subscribe", []string{a}, ""), Carrier: "header"})
+		form := url.Values{"topic": {"https://example.com/users/other/payslips"}, "private": {"on"}, "data": {"secret"}, "id": {"collide"}}
+		cs.Ops = append(cs.Ops, hubOp{Op: "pub", Form: form, Claims: claimsJSON("publish", []string{"*"}, ""), Carrier: "header"})
+	}
 	pubN := 0
 	for k := 0; k < nops; k++ {
 		x := rr.Intn(100)
